@@ -1,5 +1,6 @@
 import Litestream.Lemmas.ReplicaSync
 import Litestream.Props.C08
+import Litestream.Gen.L0Guard
 /-!
 # C05 — Transient storage failures never leave gaps or false acknowledgements
 
@@ -303,6 +304,74 @@ theorem clear_first_loses_baseline :
     ∧ (baselineStepClearFirst ok (baselineStepClearFirst φ1 b0).1).1.r.dbPos = 0
     ∧ (syncOnce ok 0 (commit (baselineStepClearFirst ok (baselineStepClearFirst φ1 b0).1).1.r)).2 = .ok
     ∧ (syncOnce ok 0 (commit (baselineStepClearFirst ok (baselineStepClearFirst φ1 b0).1).1.r)).1.remote = [3, 2, 1] := by
+  decide
+
+/-! ## level-0 retention while the replica lags -/
+
+/-- (T) the keep-the-newest guard of `EnforceL0RetentionByTime` reads the REMOTE level-0 listing it
+    iterates, and no cache-first lookup (regenerated from db.go on every run) -/
+theorem gen_l0_guard_remote : Gen.l0GuardAgainstRemoteNewest = true ∧ Gen.l0GuardCallsCache = false := by
+  first | exact ⟨rfl, rfl⟩ | decide
+
+theorem maxOf_filter_ge (l : List Nat) (m : Nat) (hm : m ≤ maxOf l) :
+    maxOf (l.filter (fun t => decide (m ≤ t))) = maxOf l := by
+  induction l with
+  | nil => rfl
+  | cons a l ih =>
+    simp only [List.filter, maxOf] at hm ⊢
+    by_cases ha : m ≤ a
+    · simp only [ha, decide_true, maxOf]
+      by_cases hl : m ≤ maxOf l
+      · rw [ih hl]
+      · have h0 : maxOf (l.filter (fun t => decide (m ≤ t))) ≤ maxOf l := by
+          clear ih hm ha
+          induction l with
+          | nil => exact Nat.le_refl _
+          | cons b l ih2 =>
+            simp only [List.filter]
+            by_cases hb : m ≤ b
+            · simp only [hb, decide_true, maxOf]; have := ih2 (by simp only [maxOf] at hl; omega); omega
+            · simp only [hb, decide_false, maxOf]; have := ih2 (by simp only [maxOf] at hl; omega); omega
+        omega
+    · simp only [ha, decide_false]
+      have hl : m ≤ maxOf l := by omega
+      rw [ih hl]
+      omega
+
+/-- **rinv_retain.** Retention guarded by the newest REMOTE file keeps the invariant whether or not the
+    replica lags: the remote stays an interval ending at its old maximum, a cached position stays right. -/
+theorem rinv_retain (m : Nat) (r : R) (h : RInv r) : RInv (retain m r) := by
+  unfold retain
+  by_cases hc : m ≤ maxOf r.remote ∧ r.lo ≤ m
+  · rw [if_pos hc]
+    have hmax := maxOf_filter_ge r.remote m hc.1
+    refine ⟨⟨?_, ?_⟩, by have := h.lo_pos; simp only; omega, by simp only [hmax]; omega, ?_, by simp only [hmax]; exact h.max_le⟩
+    · intro t ht
+      simp only [List.mem_filter, decide_eq_true_eq] at ht
+      exact ht.2
+    · intro t h1 h2
+      simp only [hmax] at h2
+      simp only [List.mem_filter, decide_eq_true_eq]
+      exact ⟨h.contig.2 t (by simp only at h1; omega) h2, h1⟩
+    · intro hp
+      simp only [hmax]
+      exact h.pos_eq hp
+  · rw [if_neg hc]; exact h
+
+/-- **Witness (kernel-checked): guarding against the newest LOCAL file loses the replica.** Remote
+    level 0 = {3} (1, 2 already retained, all in L1), the database is at 4 because the upload of 4 failed
+    (cache cleared).  With the local guard retention empties the remote level 0 (and the local copies below
+    4); the next sync computes position 0, wants the local file 1, and fails — for ever, without any fault.
+    With the remote guard the same call changes nothing and the sync catches up. -/
+def lagR : R := ⟨[3], 3, 0, 4, 3, 0⟩
+def allOk : Assign := fun _ => .ok
+
+theorem local_guard_loses_replica :
+    (retainLocalGuard 4 lagR).remote = []
+    ∧ (syncOnce allOk 0 (retainLocalGuard 4 lagR)).2 = .errLocal
+    ∧ (syncOnce allOk 0 (syncOnce allOk 0 (retainLocalGuard 4 lagR)).1).2 = .errLocal
+    ∧ (retain 4 lagR).remote = [3] ∧ (retain 4 lagR).localMin = 3
+    ∧ (syncOnce allOk 0 (retain 4 lagR)).2 = .ok ∧ (syncOnce allOk 0 (retain 4 lagR)).1.remote = [4, 3] := by
   decide
 
 /-! ## restorable throughout (through C08's planner) -/
